@@ -16,8 +16,8 @@ Import-free executable part (core Lean only):
 * `snfDiag`, `rankModP`, `homologyOf`   an independent computation of the invariant factors / rank (own
                    elimination, not a transcription of the Rust SNF), giving the uniquely determined part of
                    the answer: `rank = n − rank d1 − rank d2`, torsion = invariant factors `> 1` of `d1`;
-* `Snf`, `calculate`   the code model of `HomologyCalc::{calculate, process_snf, result, trans}` on top of
-                   an SNF routine passed as a parameter (`Yuiv/Model/C07Snf.lean` supplies one).
+* the code model of `HomologyCalc::{calculate, process_snf, result, trans}` (on top of an SNF routine passed as a
+  parameter) is in `Yuiv/Model/C07Calc.lean`, the one of `Trans` in `Yuiv/Model/C07Trans.lean`.
 -/
 namespace Yuiv.C07
 
